@@ -319,16 +319,18 @@ def generate(unit):
             cm = rscan.find_code(src, mask, kv["closure"] + r"(?=(?:move\s+)?\|)", b, end)
             if not cm:
                 raise Undecided(f"lost anchor: no closure after /{kv['closure']}/ in {kv['item']} of {kv['file']}")
-            hm = re.compile(r"(?:move\s+)?\|\s*(\w+)\s*(?::[^|,]*)?(?:,\s*\w+\s*(?::[^|,]*)?)*\|\s*(?:async\s+move\s+)?").match(src, cm.end())
+            hm = re.compile(r"(?:move\s+)?\|\s*(\w+)\s*(?::[^|,]*)?((?:,\s*\w+\s*(?::[^|,]*)?)*)\|\s*(?:async\s+move\s+)?").match(src, cm.end())
             if not hm or src[hm.end()] != "{":
                 raise Undecided(f"lost anchor: closure after /{kv['closure']}/ in {kv['item']} is not a block closure (a block after `|x, ..|` or after `|x, ..| async move`)")
             sig_start, b = cm.end(), hm.end()
             end = rscan.match_brace(src, mask, b) + 1
             # `$x` in //@expect, //@sig and the contract stands for the closure's own parameter name
-            xname = hm.group(1)
-            blk["expect"] = [e.replace("$x", xname) for e in blk["expect"]]
-            blk["sig"] = blk["sig"].replace("$x", xname) if blk["sig"] else blk["sig"]
-            blk["contract"] = [c.replace("$x", xname) for c in blk["contract"]]
+            # (`$y`, `$z`: its second and third parameter)
+            names = [hm.group(1)] + re.findall(r",\s*(\w+)", hm.group(2) or "")
+            for var, xname in zip(("$x", "$y", "$z"), names):
+                blk["expect"] = [e.replace(var, xname) for e in blk["expect"]]
+                blk["sig"] = blk["sig"].replace(var, xname) if blk["sig"] else blk["sig"]
+                blk["contract"] = [c.replace(var, xname) for c in blk["contract"]]
         real_sig = rscan.norm(src[sig_start:b])
         if blk["expect"] and real_sig not in [rscan.norm(e) for e in blk["expect"]]:
             raise Undecided(f"lost anchor: signature of {kv['item']} in {kv['file']} is `{real_sig}`, unit expects `{' | '.join(rscan.norm(e) for e in blk['expect'])}`")
